@@ -131,6 +131,9 @@ def _rand_jacobi_rotation(A, generator):
     if A.shape[0] != A.shape[1]:
         raise ValueError('Input matrix must be square.')
     n = A.shape[0]
+    if n < 2:
+        # There is no pair of distinct indices to rotate.
+        return A
     angle = 2 * generator.random() * np.pi
     a = np.sqrt(0.5) * np.exp(-1j * angle)
     b = np.conj(a)
